@@ -326,6 +326,169 @@ def section_spectrum():
             fail("spectrum", "characteristic polynomial of the truncated H_tilde differs from that of H below order N+1", layout=li, coefficients=list(bad.items())[:3])
 
 
+def section_solvers():
+    """C16: each built-in solver returns a solution of its own equation."""
+    global cases
+    from pymablock.block_diagonalization import solve_sylvester_diagonal, solve_sylvester_direct, solve_sylvester_KPM
+    from pymablock.linalg import direct_greens_function, ComplementProjector
+    rng = np.random.default_rng(7)
+    # diagonal solver: dense / sparse, real / complex energies, degenerate pairs inside a block
+    for cplx in (False, True):
+        EA = np.array([0.0, 0.0, 1.0]) + (1j * np.array([0.5, 0.5, -1.0]) if cplx else 0)
+        EB = np.array([3.0, 4.5]) + (1j * np.array([0.25, 2.0]) if cplx else 0)
+        eigs = (EA, EB)
+        for (i, j) in ((0, 1), (1, 0), (0, 0), (1, 1)):
+            Y = rng.normal(size=(len(eigs[i]), len(eigs[j]))) + 1j * rng.normal(size=(len(eigs[i]), len(eigs[j])))
+            for conv in (np.array, sparse.csr_array):
+                cases += 1
+                ss = solve_sylvester_diagonal(eigs, atol=1e-12)
+                V = dense(ss(conv(Y), (i, j)), Y.shape)
+                d = eigs[i].reshape(-1, 1) - eigs[j]
+                resid = d * V - Y
+                far = np.abs(d) > 1e-12
+                if not np.all(np.isfinite(V)):
+                    fail("solvers", "diagonal solver returned a non-finite value", index=(i, j), kind=conv.__name__)
+                elif np.abs(resid[far]).max(initial=0) > 1e-9 or np.abs(V[~far]).max(initial=0) != 0:
+                    fail("solvers", "diagonal solver: E_a V_ab - V_ab E_b != Y_ab (or non-zero on a degenerate pair)", index=(i, j), kind=conv.__name__, cplx=cplx)
+    # direct solver and Green's function
+    n, na = 9, 3
+    for cplx in (False, True):
+        for degenerate in (False, True):
+            cases += 1
+            M = rng.normal(size=(n, n)) + (1j * rng.normal(size=(n, n)) if cplx else 0)
+            H = M + M.conj().T
+            w, v = np.linalg.eigh(H)
+            if degenerate:
+                w[1] = w[0]
+                H = (v * w) @ v.conj().T
+            vA, vB = v[:, :2], v[:, 2:na]
+            h = sparse.csr_array(H)
+            try:
+                ss = solve_sylvester_direct(h, [vA, vB])
+                for blk, vecs, es in ((0, vA, w[:2]), (1, vB, w[2:na])):
+                    Y = rng.normal(size=(vecs.shape[1], n)) + (1j * rng.normal(size=(vecs.shape[1], n)) if cplx else 0)
+                    V = np.asarray(ss(Y, (blk, 2)))
+                    P = np.eye(n) - v[:, :na] @ v[:, :na].conj().T
+                    lhs = np.diag(es) @ V - V @ H
+                    if np.abs(lhs - Y @ P).max() > 1e-7 or np.abs(V @ P - V).max() > 1e-7:
+                        fail("solvers", "direct solver: E V - V H != Y P on the implicit block (or V leaves the complement)", block=blk, cplx=cplx, degenerate=degenerate,
+                             err=float(np.abs(lhs - Y @ P).max()))
+                E0 = w[0]
+                k = (v[:, :2] if degenerate else v[:, :1])
+                gf = direct_greens_function(h, E0, kernel_vectors=k)
+                vec = rng.normal(size=n) + (1j * rng.normal(size=n) if cplx else 0)
+                x = gf(vec.copy())
+                Pk = np.eye(n) - k @ k.conj().T
+                if np.abs((E0 * np.eye(n) - H) @ x - Pk @ vec).max() > 1e-7 or np.abs(Pk @ x - x).max() > 1e-7:
+                    fail("solvers", "direct_greens_function: (E-H)x != P v or x not in range of P", cplx=cplx, degenerate=degenerate)
+            except Exception as e:
+                fail("solvers", "direct solver raised", cplx=cplx, degenerate=degenerate, error=repr(e)[:300])
+    # KPM solver with and without exactly known auxiliary vectors
+    n = 30
+    M = rng.normal(size=(n, n))
+    H = (M + M.T) / np.sqrt(n)
+    w, v = np.linalg.eigh(H)
+    vA = v[:, :2]
+    for naux in (0, 1, 5):
+        cases += 1
+        opts = {"atol": 1e-7}
+        if naux:
+            opts["auxiliary_vectors"] = v[:, 2:2 + naux]
+        with warnings.catch_warnings(record=True) as wlist:
+            warnings.simplefilter("always")
+            ss = solve_sylvester_KPM(H, (vA,), solver_options=opts)
+            Y = rng.normal(size=(2, n))
+            V = np.asarray(ss(Y, (0, 1)))
+        P = np.eye(n) - vA @ vA.T
+        resid = np.diag(w[:2]) @ V - V @ H - Y @ P
+        warned = any(issubclass(x.category, RuntimeWarning) for x in wlist)
+        if np.abs(resid).max() > 1e-3 * max(1.0, np.abs(Y).max()) and not warned:
+            fail("solvers", "KPM solver: residual of E V - V H = Y P far above the requested accuracy and no convergence warning", aux=naux, err=float(np.abs(resid).max()))
+
+
+def section_illposed():
+    """C20: every class of ill-posed input is rejected no later than the first evaluation that needs it."""
+    global cases
+    rng = np.random.default_rng(11)
+
+    def herm(n, cplx=True):
+        m = rng.normal(size=(n, n)) + (1j * rng.normal(size=(n, n)) if cplx else 0)
+        return m + m.conj().T
+
+    def expect(label, exc_types, thunk):
+        global cases
+        cases += 1
+        try:
+            out = thunk()
+        except exc_types:
+            return
+        except Exception as e:
+            fail("illposed", "ill-posed input raised an unexpected exception type", label=label, error=repr(e)[:200])
+            return
+        fail("illposed", "ill-posed input was accepted without error", label=label, result=repr(out)[:200])
+
+    H1 = herm(4)
+    # H_0 not block diagonal
+    h0 = np.diag([0.0, 1.0, 3.0, 4.0]).astype(complex)
+    h0[0, 3] = h0[3, 0] = 0.5
+    expect("H0 not block diagonal", (ValueError,), lambda: block_diagonalize([h0, H1], subspace_indices=[0, 0, 1, 1]))
+    # coupled blocks share an energy: all request orders, both modes
+    E = np.diag([0.0, 1.0, 1.0, 4.0]).astype(complex)
+    for hermitian in (True, False):
+        for first in ((0, 0, 2), (0, 1, 1), (1, 0, 1), (1, 1, 2)):
+            for out in (0, 1, 2):
+                if out == 0 and first[0] != first[1]:
+                    continue   # off-diagonal H_tilde is zero by construction and needs no solve
+                def thunk(hermitian=hermitian, first=first, out=out):
+                    res = block_diagonalize([E, H1], subspace_indices=[0, 0, 1, 1], hermitian=hermitian)
+                    return res[out][first]
+                expect(f"shared energy between coupled blocks hermitian={hermitian} output={out} first={first}", (ValueError, RuntimeError), thunk)
+        # one-directional coupling (only the lower-left block of the perturbation is non-zero)
+        if not hermitian:
+            L = np.zeros((4, 4), dtype=complex)
+            L[2:, :2] = rng.normal(size=(2, 2))
+            for first in ((1, 0, 1), (1, 1, 2), (0, 0, 2)):
+                def thunk2(first=first, L=L):
+                    res = block_diagonalize([E, L], subspace_indices=[0, 0, 1, 1], hermitian=False)
+                    v = res[1][1, 0, 1]
+                    return v
+                expect(f"shared energy, lower-triangular coupling only, first={first}", (ValueError, RuntimeError), thunk2)
+    # elements selected for elimination at equal energies
+    Ed = np.diag([0.0, 0.0, 2.0]).astype(complex)
+    m = np.ones((3, 3), dtype=bool)
+    np.fill_diagonal(m, False)
+    expect("mask eliminates a degenerate pair", (ValueError,), lambda: block_diagonalize([Ed, herm(3)], fully_diagonalize={0: m}))
+    # asymmetric Hermitian mask
+    m2 = np.zeros((3, 3), dtype=bool)
+    m2[0, 2] = True
+    expect("asymmetric mask in Hermitian mode", (ValueError,), lambda: block_diagonalize([np.diag([0.0, 1.0, 2.0]), herm(3)], fully_diagonalize={0: m2}))
+    # eigenvectors not orthonormal
+    v = np.linalg.qr(rng.normal(size=(4, 4)))[0]
+    bad = v.copy()
+    bad[:, 0] *= 2
+    expect("eigenvectors not orthonormal", (ValueError,), lambda: block_diagonalize([np.diag([0.0, 1.0, 3.0, 4.0]), herm(4, False)], subspace_eigenvectors=(bad[:, :2], bad[:, 2:])))
+    # mutually exclusive options
+    expect("subspace_indices and subspace_eigenvectors together", (ValueError,), lambda: block_diagonalize(
+        [np.diag([0.0, 1.0, 3.0, 4.0]), herm(4, False)], subspace_eigenvectors=(v[:, :2], v[:, 2:]), subspace_indices=[0, 0, 1, 1]))
+    expect("custom solve_sylvester with fully_diagonalize", (NotImplementedError,), lambda: block_diagonalize(
+        [np.diag([0.0, 1.0, 3.0, 4.0]), herm(4, False)], subspace_indices=[0, 0, 1, 1], solve_sylvester=lambda Y, index: Y, fully_diagonalize=(0,)))
+    # symbolic non-Hermitian input in Hermitian mode
+    x = sympy.Symbol("x", real=True)
+    Hs = sympy.Matrix([[0, x], [2 * x, 1]])
+    expect("symbolic non-Hermitian input in Hermitian mode", (ValueError,), lambda: block_diagonalize(Hs, symbols=[x], subspace_indices=[0, 1])[0][0, 0, 2])
+    # zero diagonal
+    expect("zero unperturbed Hamiltonian", (ValueError,), lambda: block_diagonalize([np.zeros((2, 2)), herm(2, False)], subspace_indices=[0, 1]))
+    # finiteness on accepted problems (incl. near-degenerate kept pairs, sparse)
+    for fmt in ("dense", "sparse"):
+        pb = Problem([0.0, 1e-14, 2.0, 3.0], [0, 0, 1, 1], seed=5, fmt=fmt)
+        cases += 1
+        Ht, U, Ud = block_diagonalize(pb.hamiltonian(), subspace_indices=pb.sub, fully_diagonalize=(0,))
+        for o in range(4):
+            for S in (Ht, U, Ud):
+                if not np.all(np.isfinite(pb.assemble(S, (o,)))):
+                    fail("illposed", "accepted well-posed numeric input produced a non-finite element", fmt=fmt, order=o)
+
+
 for name in sections:
     fn = globals().get("section_" + name)
     if fn is None:
